@@ -72,7 +72,7 @@ def run(ctx) -> None:
   ctx.rule('R8', 'every SQL filter is an exact equality on key columns (the RAM backend addresses '
            'rows by exact dict keys): no LIKE/startswith/contains/range filters', 30)
   ctx.rule('R9', 'SQL backend: every in-memory container is invalidated by every method that writes a table it was filled from', 1)
-  ctx.import_rules('C05', {'R2', 'R7'}, 'R12', 'a failed SQL call leaves nothing behind, like a failed RAM call: rollback before the raise, engine not in autocommit')
+  ctx.import_rules('C05', {'R1', 'R2', 'R7'}, 'R12', 'a failed SQL call leaves nothing behind, like a failed RAM call: rollback before the raise, engine not in autocommit')
   ctx.rule('R11', 'write footprint: a DataStore method writes the same kinds of rows in both backends (trials / suggestion '
            'operations / early-stopping operations / study)', 8)
   ctx.rule('R10', 'RAM update_trial never inserts: the row store is dominated by an existence test of the same key '
